@@ -1,12 +1,13 @@
 """C05 — condition variables: atomic release-and-wait, exact wake-ups, no spurious wake-up.
 Ties: T1 (cond.c / abti_cond.h / wait-list / futex skeletons), T3 (vsched traces validated against Model.Cond)."""
+from checks import futex_common
 from vlib import common as C
 from vlib import t1, t3, vs
 
 ASSUMPTIONS = [
     "sequentially consistent execution of the atomic primitives",
     "the user mutex is an atomic object in Model.Cond (its own protocol is C04's Model.Mutex)",
-    "futex wake-up counting of non-ULT waiters is exercised under the virtual futex, not modelled in Lean",
+    futex_common.ASSUMPTION,
     "the monitor-discipline hypothesis of the property (predicate changed under the mutex) is how the scenario programs are written",
     "tasklets cannot call ABT_cond_wait in this build (API 1.x: rejected with ABT_ERR_COND); they act as signallers only",
 ]
@@ -15,14 +16,14 @@ T1_FUNCS = [("cond.c", f) for f in [
     "ABTI_cond_wait", "ABTI_cond_broadcast", "ABT_cond_wait", "ABT_cond_timedwait", "ABT_cond_signal", "ABT_cond_broadcast",
     "ABTI_cond_init", "ABTI_waitlist_wait_and_unlock", "ABTI_waitlist_wait_timedout_and_unlock", "ABTI_waitlist_signal",
     "ABTI_waitlist_broadcast", "ABTI_ythread_suspend_unlock", "ABTI_ythread_resume_and_push", "ABTI_mutex_unlock",
-    "ABTI_mutex_lock", "convert_timespec_to_sec"]] + [
+    "ABTI_mutex_lock", "convert_timespec_to_sec", "ABT_cond_create", "ABT_cond_free", "ABTI_cond_fini"]] + [
     ("ythread.c", "ABTI_ythread_callback_suspend_unlock"),
     ("arch/abtd_futex.c", "ABTD_futex_wait_and_unlock"), ("arch/abtd_futex.c", "ABTD_futex_timedwait_and_unlock"),
     ("arch/abtd_futex.c", "ABTD_futex_broadcast"), ("arch/abtd_time.c", "ABTD_time_get"), ("arch/abtd_time.c", "ABTD_time_read_sec")]
 
 
 def scenario_params(rng):
-    return ["cond", 1 + rng.below(3), 2 + rng.below(5), 1 + rng.below(3), 30, 0]
+    return ["cond", 1 + rng.below(3), 2 + rng.below(5), 1 + rng.below(3), 30, 0, rng.below(2)]
 
 
 def cond_cfg(lg):
@@ -49,7 +50,12 @@ def run(res, tier, broken):
         broken.append({"kind": "T1-skeleton", **b})
     vs.campaign(res, broken, tier, "C05", "sc_sync", ["sc_sync.c"], scenario_params, validate,
                 sizes={"quick": (20, 3), "thorough": (200, 8), "search": (150, 6)}, reject_is_failure=vs.protocol_reject_is_failure)
+    futex_common.run(res, tier, broken, res.seed)
 
 
 def replay(res, path):
+    import json
+    rep = json.load(open(path))
+    if rep.get("harness") == "wb_futex":
+        return futex_common.replay(rep)
     return vs.replay("sc_sync", ["sc_sync.c"], path, validate)
